@@ -10,7 +10,7 @@ nothing) and any cancellation point ≥ 1; no bound on sizes (induction over the
 of the theorems (`runWith … = some o`).
 Tie: (1) regenerated — `Pandora.Bridge.C14` proves that the filter function, the place where each path applies it,
 the loop bodies of runFullScan / runPreloaded, the sentinel mapping and the deferred close regenerated from the
-current Go source on every check run (`Gen/ChosenCases.lean`, `Gen/ProvLoops.lean`) are what the model says
+current Go source on every check run (`Gen/ChosenCases.lean`) are what the model says
 (`C14_model_is_source`, `C14_listed_is_source_filter`); (2) correspondence — harness/cmd/c14 (real providers via
 NewProvider or the plugin registry, preload off/on on the same source) + `Pandora.Drv.C14`; `C14_spec_holds` links
 the executable Spec that judges the real providers to the model.
@@ -70,6 +70,27 @@ theorem C14_equiv (k : Fmt) (file : List α) (chosen : α → Bool) (b : Bounds)
     | none => simp [runWith, fuelOf, hf, hT]
     | some T =>
       rw [C14_run k false file chosen b cancelAt T (by omega) hT, C14_run k true file chosen b cancelAt T (by omega) hT]
+
+/-- The same without the restriction on the cancellation point: it would also cover a context that is already
+cancelled when `Run` is called (not a configuration of the property's quantifier; kept visible because it is FALSE). -/
+def C14_equiv_precancelled_statement : Prop :=
+  ∀ (k : Fmt) (file : List Nat) (chosen : Nat → Bool) (b : Bounds) (cancelAt : Option Nat),
+    runWith k false file chosen b cancelAt = runWith k true file chosen b cancelAt
+
+/-- `C14_equiv` is the part of it that holds. -/
+theorem C14_equiv_precancelled_partial (k : Fmt) (file : List Nat) (chosen : Nat → Bool) (b : Bounds)
+    (cancelAt : Option Nat) (hc : cancelAt ≠ some 0) :
+    runWith k false file chosen b cancelAt = runWith k true file chosen b cancelAt := C14_equiv k file chosen b cancelAt hc
+
+/-- http/json, one entry, nothing chosen, context cancelled before `Run`: the streaming path returns
+context.Canceled at once, the preloaded path first loads the file (the http/json decoder never looks at the context)
+and fails with "no ammo in file".  Nothing is delivered either way. -/
+theorem C14_equiv_precancelled_counterexample : ¬ C14_equiv_precancelled_statement := by
+  intro h
+  have h1 : (runWith .jsonLines false [0] (fun _ => false) ⟨0, 0⟩ (some 0)).map (·.run) = some .canceled := by decide
+  have h2 : (runWith .jsonLines true [0] (fun _ => false) ⟨0, 0⟩ (some 0)).map (·.run) = some .errNoAmmo := by decide
+  rw [h .jsonLines [0] (fun _ => false) ⟨0, 0⟩ (some 0), h2] at h1
+  simp at h1
 
 /-- … and the equality is never the vacuous `none = none` for a run that has a reason to end: with a limit, with
 passes, with a cancellation, or with nothing chosen, both modes END (within the model's fuel). -/
@@ -194,8 +215,8 @@ theorem C14_model_is_source :
     (∀ (cases : List String) (e : Entry), isChosen cases e = Gen.ChosenCases.isChosenCase e.tag cases) ∧
     (∀ (chosen : Entry → Bool) (ammos : List Entry), Gen.ChosenCases.loadAmmoKeep chosen ammos = ammos.filter chosen) ∧
     (∀ (preload : Bool), Gen.ChosenCases.runPath preload = if preload then ["loadAmmo", "ok:runPreloaded"] else ["runFullScan"]) ∧
-    Gen.ProvLoops.httpRunCloses = true ∧ (∀ l, Gen.ProvLoops.decoderLimit l = 0) ∧
-    Gen.ProvLoops.runPreloadedDone = Gen.ProvLoops.runFullScanDone :=
+    Gen.ChosenCases.httpRunCloses = true ∧ (∀ l, Gen.ChosenCases.decoderLimit l = 0) ∧
+    Gen.ChosenCases.runPreloadedDone = Gen.ChosenCases.runFullScanDone :=
   ⟨Bridge.C14.isChosen_eq_source, Bridge.C14.loadAmmoKeep_eq, fun p => by cases p <;> rfl, rfl, fun _ => rfl, rfl⟩
 
 /-- With a non-empty chosencases list, filtering a file with the REGENERATED `IsChosenCase` gives exactly the
